@@ -46,6 +46,13 @@ def strategy(draw, tier="quick"):
     na = draw(st.sampled_from([1, 2, 3, 8, 9, 10, 11, 12, 40]))
     if fmt in ("mdcrd", "crd") and na == 1:
         na = 2     # a one-atom mdcrd frame is indistinguishable from a box line: inherent format ambiguity
+    size = draw(st.integers(0, 29))
+    if size == 0 and fmt not in ("rst7", "ncrst"):
+        nf, na = draw(st.sampled_from([513, 1030])), draw(st.sampled_from([3, 10]))      # more frames than an internal block is likely to hold
+    elif size == 1:
+        na = draw(st.sampled_from([1000, 2049]))                                           # many atoms (XTC's large-system coder, buffers)
+    elif size == 2 and fmt in ("pdb", "gro", "pdb.gz"):
+        nf, na = 1, 100001                                                                  # atom numbers beyond the 5-column field
     cell = draw(st.sampled_from([None, "ortho", "ortho", "tric", "vary", "vary-tric", "ortho-then-tric", "tric-then-ortho"]))
     cap = CAP[fmt]
     if cap.get("need_cell") and cell is None:
@@ -54,6 +61,9 @@ def strategy(draw, tier="quick"):
             "mag": draw(st.sampled_from([0.001, 0.1, 1.0, 1.0, 5.0, 50.0, 99.0, 500.0])),
             "time": draw(st.sampled_from(["arange", "offset", "nonuniform", "large"])),
             "cell_scale": draw(st.sampled_from([1.0, 1.0, 3.0, 30.0]))}
+    if fmt in ("pdb", "pdb.gz") and na >= 1000:
+        # load_pdb documents that a CRYST1 record implying more than 1000 atoms per nm^3 is taken for a dummy and dropped
+        case["cell_scale"] = 30.0
     if fmt == "gro":
         case["precision"] = draw(st.integers(1, 6))
     if fmt in ("pdb", "pdb.gz"):
@@ -88,11 +98,11 @@ def build(case):
             for f in range(nf):
                 tric_here = (f > 0) if case["cell"] == "ortho-then-tric" else (f < nf - 1 or nf == 1)
                 if tric_here:
-                    A[f] = skew + f
+                    A[f] = skew + f % 7          # (bounded: long trajectories must stay valid cells)
         if case["cell"].startswith("vary"):
-            L = L * (1 + 0.05 * np.arange(nf))[:, None]
+            L = L * (1 + 0.05 * (np.arange(nf) % 11))[:, None]
             if case["cell"] == "vary-tric":
-                A = A + np.arange(nf)[:, None] * 0.5
+                A = A + (np.arange(nf) % 11)[:, None] * 0.5
         tr.unitcell_lengths = L.astype(np.float32)
         tr.unitcell_angles = A.astype(np.float32)
     return tr
